@@ -228,6 +228,35 @@ let () =
                    else if unsafe then addd (Printf.sprintf "view%s not read (unsafe descriptor) %s" where (show_view_head v))
                  | a, b -> if a <> b then addd (Printf.sprintf "view%s outcome differs from model" where)))
               views;
+            (* buffer requests with explicit flags (PyObject_GetBuffer through ctypes) against the
+               model of the guards of __getbuffer__: model_request / model_request_null *)
+            (match (try Some (oget "raw") with Not_found -> None) with
+             | None -> ()
+             | Some "" -> ()
+             | Some raw ->
+               (match Str.bounded_split_delim (Str.regexp_string "@") raw 2 with
+                | [w; reqs] when reqs <> "NA" ->
+                  let wraps = List.map (fun x -> nat_of_int (int_of_string x)) (split ',' w) in
+                  let fmt_char = function FmtB -> "B" | Fmtf -> "f" | Fmtd -> "d" in
+                  let optl = function None -> "N" | Some l -> show_zlist l in
+                  let expect (r : pybuf res) = match r with
+                    | Ok b -> Printf.sprintf "%s/%s/%d/%d/%s/%s/%s/1/1/1/1/0" (string_of_z b.pb_len) (string_of_z b.pb_itemsize)
+                                (if b.pb_readonly then 1 else 0) (int_of_nat b.pb_ndim) (fmt_char b.pb_format)
+                                (optl b.pb_shape) (optl b.pb_strides)
+                    | Err c -> "E" ^ string_of_int (int_of_nat c)
+                    | Panic _ -> "P"
+                    | OutOfFuel -> "E9" in
+                  List.iter (fun t ->
+                      match Str.bounded_split (Str.regexp_string ":") t 2 with
+                      | [fl; got] ->
+                        let model = if fl = "null" then z_model_request_null dflt lo wraps (nat_of_int l_) (nat_of_int m_)
+                          else z_model_request dflt lo wraps (nat_of_int l_) (nat_of_int m_) (z_of_string fl) in
+                        let exp = expect model in
+                        let got' = if String.length got > 2 && got.[0] = 'E' && got.[1] = '9' then "E9" else got in
+                        if got' <> exp then
+                          addd (Printf.sprintf "getbuffer(flags=%s) got=%s model=%s" fl got exp)
+                      | _ -> ()) (split '|' reqs)
+                | _ -> ()));
             if !fails <> [] then
               Printf.printf "%s PROPFAIL class=%s %s\n" id cls (String.concat " ; " (List.rev !fails))
             else if !diffs <> [] then
